@@ -254,7 +254,15 @@ impl Check {
                 Tier::Quick => 8,
                 Tier::Thorough => 16,
             });
-        let known = load_known(&verif_dir.join("known_findings.txt"), id);
+        let mut known = load_known(&verif_dir.join("known_findings.txt"), id);
+        // development-time staging area (merged into known_findings.txt before commit)
+        if let Ok(rd) = std::fs::read_dir(verif_dir.join("known.d")) {
+            let mut ps: Vec<_> = rd.filter_map(|e| e.ok().map(|e| e.path())).collect();
+            ps.sort();
+            for p in ps {
+                known.extend(load_known(&p, id));
+            }
+        }
         // watchdog: a stuck run is inconclusive (exit 2), never a violation
         let budget: u64 = std::env::var("VERIF_WATCHDOG_S").ok().and_then(|s| s.parse().ok()).unwrap_or(match tier {
             Tier::Quick => 1500,
